@@ -66,6 +66,8 @@ const (
 	TxCreate
 	TxCallThenRevert
 	TxCreateFail
+	TxCreateDirect // contract creation transaction: the deployed code's length depends on the recipe
+	TxExtSize      // a contract that stores EXTCODESIZE of an address a creation transaction may have deployed to
 	numTxKinds
 )
 
@@ -204,6 +206,7 @@ func Build(r *Recipe) (u *Universe, err error) {
 	add("fwd", codeForward, 0)
 	add("create", codeCreate, 0)
 	add("callrevert", codeCallThenRevert, 0)
+	add("extsize", common.FromHex("6000353b60005500"), 0) // SSTORE(0, EXTCODESIZE(calldata[0]))
 	for n := 0; n <= 4; n++ {
 		add(fmt.Sprintf("log%d", n), codeLog(n), 0)
 		add(fmt.Sprintf("logb%d", n), codeLog(n), 0) // second emitter with the same behaviour
@@ -343,6 +346,15 @@ func (u *Universe) makeTx(tr *TxRecipe, nonce uint64, number *big.Int) (*types.T
 	case TxCallThenRevert:
 		gas = 120000
 		tx = types.NewTransaction(nonce, u.Contracts["callrevert"], val, gas, price, addrWord(to))
+	case TxCreateDirect:
+		gas = 120000
+		// init code: RETURN(0, L) - deploys L zero bytes (STOPs); L differs between recipes, so two
+		// branches can deploy different code at the same address (same sender, same nonce)
+		tx = types.NewContractCreation(nonce, new(big.Int), gas, price, []byte{0x60, byte(1 + tr.A%5), 0x60, 0x00, 0xf3})
+	case TxExtSize:
+		gas = 90000
+		target := crypto.CreateAddress(to, tr.B%3)
+		tx = types.NewTransaction(nonce, u.Contracts["extsize"], val, gas, price, addrWord(target))
 	case TxCreateFail:
 		gas = 150000
 		// direct contract creation whose init code reverts / runs an invalid opcode
